@@ -1362,6 +1362,11 @@ size_t ZSTD_CCtx_reset(ZSTD_CCtx* cctx, ZSTD_ResetDirective reset)
 {
     if ( (reset == ZSTD_reset_session_only)
       || (reset == ZSTD_reset_session_and_parameters) ) {
+#ifdef ZSTD_MULTITHREAD
+        /* jobs of an interrupted frame still use the dictionary, prefix and parameters
+         * that the caller is now allowed to change or release : wait for them */
+        if (cctx->mtctx != NULL) ZSTDMT_waitForUnfinishedJobs(cctx->mtctx);
+#endif
         cctx->streamStage = zcss_init;
         cctx->pledgedSrcSizePlusOne = 0;
     }
